@@ -129,6 +129,12 @@ single!(S14, T14, "S14", { #[deb822(field = "V-Renamed", deserialize_with = de_h
 single!(S15, T15, "S15", { #[deb822(serialize_with = ser_list, deserialize_with = de_list)] v: Option<Vec<String>> }, f!("v", false, ["a", "a b c"], Words, Some("a !b")));
 single!(S16, T16, "S16", { #[deb822(field = "V-Renamed", serialize_with = ser_yesno, deserialize_with = de_yesno)] v: Option<bool> }, f!("V-Renamed", false, ["yes", "no"], Exact, Some("maybe")));
 
+// the same configuration spelt as several #[deb822(...)] attributes on one field (the macro accepts that), in either
+// order and with a doc comment in between
+single!(S17, T17, "S17", { #[deb822(field = "V-Renamed")] #[deb822(serialize_with = ser_yesno, deserialize_with = de_yesno)] v: bool }, f!("V-Renamed", true, ["yes", "no"], Exact, Some("maybe")));
+single!(S18, T18, "S18", { #[deb822(serialize_with = ser_yesno, deserialize_with = de_yesno)] #[doc = "a doc comment between the two"] #[deb822(field = "V-Renamed")] v: Option<bool> }, f!("V-Renamed", false, ["yes", "no"], Exact, Some("maybe")));
+single!(S19, T19, "S19", { #[deb822(deserialize_with = de_hex)] #[deb822(field = "V-Renamed")] #[deb822(serialize_with = ser_plus)] v: i32 }, f!("V-Renamed", true, ["+7", "+0"], Normal, Some("--1")));
+
 pub fn all_specs() -> Vec<ParaSpec> {
     let mut v = vec![
         para_spec!(S01, "test::S01 mandatory/default key/default codecs", T01, eq),
@@ -147,6 +153,9 @@ pub fn all_specs() -> Vec<ParaSpec> {
         para_spec!(S14, "test::S14 optional/renamed/custom deserialiser", T14, eq),
         para_spec!(S15, "test::S15 optional/both custom", T15, eq),
         para_spec!(S16, "test::S16 optional/renamed/both custom", T16, eq),
+        para_spec!(S17, "test::S17 key and codecs in two attributes", T17, eq),
+        para_spec!(S18, "test::S18 codecs and key in two attributes, doc comment between", T18, eq),
+        para_spec!(S19, "test::S19 three attributes", T19, eq),
         para_spec!(Shapes16, "test::Shapes16 all sixteen shapes", SHAPES16, eq),
     ];
     v.extend(crate::typed_tables::specs());
@@ -463,7 +472,7 @@ impl Prop for C16 {
         "exploration"
     }
     fn rule(&self, _t: Tier) -> String {
-        "programs: 16 single-field structs (every combination of mandatory/optional x default/renamed key x default/custom serialiser x default/custom deserialiser), one struct with all 16 shapes, and every deriving struct shipped in the workspace; values: per struct every presence/value vector within k deviations (k = 2, thorough 3; full product for the single-field structs) of the all-mandatory and the all-present baselines; scenarios per vector: round trip on both back-ends; for k <= 1 also update_paragraph onto 7 prior contents x 2 back-ends, deletion of each mandatory field, corruption of each field that has an invalid value, and for each free-text field 4 values that never exist as text (blanks in front / behind, a leading line break) collected into a paragraph on either back-end and converted on either back-end; non-trivial = all".into()
+        "programs: 16 single-field structs (every combination of mandatory/optional x default/renamed key x default/custom serialiser x default/custom deserialiser), 3 that spell the configuration as several #[deb822(...)] attributes on one field, one struct with all 16 shapes, and every deriving struct shipped in the workspace; values: per struct every presence/value vector within k deviations (k = 2, thorough 3; full product for the single-field structs) of the all-mandatory and the all-present baselines; scenarios per vector: round trip on both back-ends; for k <= 1 also update_paragraph onto 7 prior contents x 2 back-ends, deletion of each mandatory field, corruption of each field that has an invalid value, and for each free-text field 4 values that never exist as text (blanks in front / behind, a leading line break) collected into a paragraph on either back-end and converted on either back-end; non-trivial = all".into()
     }
     fn bounds(&self, t: Tier) -> Value {
         json!({"structs": all_specs().iter().map(|s| json!({"id": s.id, "fields": s.fields.len()})).collect::<Vec<_>>(), "k": t.pick(2, 3)})
